@@ -21,13 +21,17 @@ MANIFEST = dict(
     text=('Props/C10.v: the comparison used to intern within-word automata (input pools compared in order) identifies exactly the '
           'identical automata, hence automata with the same language; the order-insensitive comparison of the pinned code is '
           'refuted by the a[b]/b[a] witness (the defect made ~1 run in 128 emit a different script; repaired in /repo). '
+          'Props/C10b.v: for EVERY two pop orders of the subset construction (the per-process hash-set order, oracle `pick`) the two raw '
+          'automata have the same input table, accept the same words and reach states standing for the same position set '
+          '(`C10_pop_order_same_automaton`, `_states_bijective`: same automaton up to state numbering; with C03_order_independent the '
+          'proved part of work-list orders not leaking; that renumber_states turns it into byte equality is checked per run). '
           'Process-level determinism rests on fixed-key hashing, which no Gallina model can exhibit (PARTIAL): per run the check '
           'verifies the premises (no std RandomState-seeded map in src, ahash without runtime-rng via cargo tree, pinned '
           'hashbrown/ahash/ustr/indexmap versions), compiles each grammar of a corpus biased to permuted/duplicated within-word '
           'expressions R times inside one process (fresh random state for every IndexMap/IndexSet each time) and K times in fresh '
           'processes with differing environments, and compares script, --dfa and --regex output byte for byte, 4 shells.'),
     design='6 C10',
-    technique='Coq theorem on interning equality + refutation witness; premise scan + repeated in-process and cross-process byte comparison')
+    technique='Coq theorems on interning equality (+ refutation witness) and on pop-order independence of the subset construction up to state numbering; premise scan + repeated in-process and cross-process byte comparison')
 
 PINNED = {'hashbrown': {'0.13.2', '0.16.1'}, 'ahash': {'0.7.6', '0.8.3'}, 'ustr': {'0.9.0'}, 'indexmap': {'2.13.0'}}
 
